@@ -504,9 +504,14 @@ class Check:
                 ok = len(v) > 0
                 self.negctl.append({"label": label, "mutation": desc, "rejected": ok, "by": v[0]["inv"] if v else None})
                 log("[%s] negative control (%s): %s -> %s" % (self.pid, label, desc, "rejected by " + v[0]["inv"] if ok else "ACCEPTED"))
-                if not ok:
-                    self.fail_machinery("negative control accepted: corrupted trace (%s) was not rejected - check is vacuous" % desc)
-                return
+                if ok:
+                    return
+                # a corruption can fall on a line where it changes nothing the property speaks about: up to four more
+                # corruptions are tried before the check is declared vacuous (every attempt is in the evidence)
+                accepted = getattr(self, "_negctl_accepted", 0) + 1
+                self._negctl_accepted = accepted
+                if accepted >= 5:
+                    self.fail_machinery("negative control accepted: 5 corrupted traces (last: %s) were not rejected - check is vacuous" % desc)
         self.fail_machinery("negative control: no applicable trace found for " + label)
 
     # -- driver liveness
